@@ -20,6 +20,10 @@ func GenFunc(prog *Prog, fn *ssa.Function, fc *FuncContract) *VC {
 	curDefs = map[string]string{}
 	enc := NewEncoder(prog, fc.Arith)
 	enc.absDiv = fc.Options["divabs"] == "yes"
+	enc.absFloat = fc.Options["floatabs"] == "yes"
+	if enc.absFloat {
+		enc.notes["floating-point arithmetic abstracted as uninterpreted functions in this function (option floatabs)"] = true
+	}
 	enc.basePrelude()
 	vc := &VC{enc: enc, prog: prog, fn: fn, fc: fc, clos: map[string]*closureVal{}, memDeclared: map[string]bool{}, recSpecs: map[string]*recSpecInfo{}, nameCount: map[string]int{}}
 	vc.qname = prog.shortPkg(fn.Pkg.Pkg.Path()) + "." + fc.Name
@@ -246,6 +250,18 @@ func (vc *VC) Query(o *Obligation, wantModel bool) string {
 			sb.WriteString(l)
 			sb.WriteString("\n")
 		}
+	}
+	if vc.enc.absFloat {
+		// floating-point arithmetic as uninterpreted functions (option floatabs): a sound abstraction
+		// for obligations that only need "the same operands give the same result"
+		repl := strings.NewReplacer(
+			"(fp.mul RNE ", "(afp.mul ", "(fp.add RNE ", "(afp.add ", "(fp.sub RNE ", "(afp.sub ", "(fp.div RNE ", "(afp.div ",
+			"(fp.roundToIntegral RNA ", "(afp.round ", "((_ to_fp 11 53) RNE ", "(afp.of.sbv64 ", "((_ to_fp_unsigned 11 53) RNE ", "(afp.of.ubv64 ",
+			"((_ fp.to_sbv 64) RTZ ", "(afp.to.sbv64 ", "((_ fp.to_ubv 64) RTZ ", "(afp.to.ubv64 ")
+		rest = repl.Replace(rest)
+		F := fp64
+		sb.WriteString(fmt.Sprintf("(declare-fun afp.mul (%s %s) %s)\n(declare-fun afp.add (%s %s) %s)\n(declare-fun afp.sub (%s %s) %s)\n(declare-fun afp.div (%s %s) %s)\n(declare-fun afp.round (%s) %s)\n(declare-fun afp.of.sbv64 ((_ BitVec 64)) %s)\n(declare-fun afp.of.ubv64 ((_ BitVec 64)) %s)\n(declare-fun afp.to.sbv64 (%s) (_ BitVec 64))\n(declare-fun afp.to.ubv64 (%s) (_ BitVec 64))\n",
+			F, F, F, F, F, F, F, F, F, F, F, F, F, F, F, F, F, F))
 	}
 	sb.WriteString(rest)
 	sb.WriteString("(check-sat)\n")
